@@ -989,3 +989,263 @@ func caseKeysAt(b *ssa.BasicBlock) []int64 {
 	}
 	return nil
 }
+
+// R2DecryptOnce — the remainder of a request is decrypted in the first round of the package loop, in every first round.
+func R2DecryptOnce(c *Ctx) {
+	const rule = "R2-decrypt-once"
+	c.R.Rule(rule, "where a package loop (handleDemonAgent; the relayed-frame loop of TaskDispatch) decrypts the rest of the buffer with DecryptBuffer, the call is guarded by a first-round flag (true on entry, false on every back edge that passed the guard), and every way round the loop passes that guard — a `continue` before it would make the next round read its command/request id out of bytes that are still encrypted, and decrypt from the wrong offset afterwards", 2)
+	n := 0
+	for _, ref := range [][2]string{{PkgHandlers, "handleDemonAgent"}, {PkgAgent, "Agent.TaskDispatch"}} {
+		root := c.P.Func(ref[0], ref[1])
+		if root == nil {
+			c.R.Anchor(rule, ref[0]+"."+ref[1])
+			continue
+		}
+		for _, fn := range HelperClosure(root, 1) {
+			loops := naturalLoops(fn)
+			EachCall(fn, func(call ssa.CallInstruction) {
+				if CalleeName(call) != "(*Havoc/pkg/common/parser.Parser).DecryptBuffer" {
+					return
+				}
+				// innermost loop containing the call
+				var l *natLoop
+				for _, cand := range loops {
+					if cand.body[call.Block()] && (l == nil || len(cand.body) < len(l.body)) {
+						l = cand
+					}
+				}
+				if l == nil {
+					return
+				}
+				// a parser created inside the loop is a new buffer in every round: decrypting it each time is right
+				recv := call.Common().Args[0]
+				if DerivesFrom(recv, func(v ssa.Value) bool {
+					mk, ok := v.(*ssa.Call)
+					return ok && CalleeName(mk) == "Havoc/pkg/common/parser.NewParser" && l.body[mk.Block()]
+				}) {
+					return
+				}
+				n++
+				construct := "DecryptBuffer in the first round of the package loop"
+				// the guarding flag: a header phi, true on entry
+				var guard *ssa.If
+				var flag *ssa.Phi
+				for _, f := range FactsAt(call.Block()) {
+					ph, ok := f.Cond.(*ssa.Phi)
+					if !ok || !f.Truth || ph.Block() != l.header {
+						continue
+					}
+					entryTrue, backFalse := false, true
+					for i, e := range ph.Edges {
+						if !l.body[l.header.Preds[i]] {
+							entryTrue = isBoolConst(e, true)
+							continue
+						}
+						// back edge: false, or the flag itself where the guard was not passed
+						if !isBoolConst(e, false) {
+							if ep, isPhi := e.(*ssa.Phi); isPhi {
+								for _, e2 := range ep.Edges {
+									if !isBoolConst(e2, false) && e2 != ssa.Value(ph) {
+										backFalse = false
+									}
+								}
+							} else if e != ssa.Value(ph) {
+								backFalse = false
+							}
+						}
+					}
+					if entryTrue && backFalse {
+						guard, flag = f.If, ph
+					}
+				}
+				if guard == nil {
+					c.R.Bad(rule, FuncShort(fn), construct, c.pos(call.Pos()), "the call sits in the package loop without a first-round flag: the buffer is decrypted again in every round (the second pass undoes the first)")
+					return
+				}
+				// every back edge passed the guard (or knows the flag is already false)
+				g := guard.Block()
+				for i, pred := range l.header.Preds {
+					if !l.body[pred] {
+						continue
+					}
+					_ = i
+					if g == pred || g.Dominates(pred) {
+						continue
+					}
+					known := false
+					for _, f := range FactsAt(pred) {
+						if f.Cond == ssa.Value(flag) && !f.Truth {
+							known = true
+						}
+					}
+					if !known {
+						c.R.Bad(rule, FuncShort(fn), construct, c.pos(pred.Instrs[len(pred.Instrs)-1].Pos()), "a path goes round the loop without passing the first-round test: the next round parses its header from the still encrypted buffer")
+						return
+					}
+				}
+				c.R.Ok(rule, FuncShort(fn), construct, c.pos(call.Pos()), "guarded by the first-round flag, and every round passes the guard", true)
+			})
+		}
+	}
+	if n == 0 {
+		c.R.Anchor(rule, "a DecryptBuffer call inside a package loop")
+	}
+}
+
+// existsNonZero: h is a boolean helper over a byte-slice parameter that answers true exactly when some element is
+// non-zero: `return true` happens only inside the scan loop under elem != 0, and false is returned only after the loop.
+func existsNonZero(h *ssa.Function) bool {
+	if h.Blocks == nil || len(h.Params) != 1 || h.Signature.Results().Len() != 1 || !isBoolType(h.Signature.Results().At(0).Type()) {
+		return false
+	}
+	loops := naturalLoops(h)
+	if len(loops) != 1 {
+		return false
+	}
+	l := loops[0]
+	nTrue := 0
+	for _, b := range h.Blocks {
+		ret, ok := b.Instrs[len(b.Instrs)-1].(*ssa.Return)
+		if !ok {
+			continue
+		}
+		// is the return reached from inside the loop body directly (not via the loop's normal exit)?
+		fromLoop := false
+		for _, p := range b.Preds {
+			if l.body[p] && p != l.header {
+				fromLoop = true
+			}
+		}
+		switch {
+		case isBoolConst(ret.Results[0], true):
+			nTrue++
+			if !fromLoop {
+				return false
+			}
+			okCmp := false
+			for _, f := range FactsAt(b) {
+				bo, isBin := f.Cond.(*ssa.BinOp)
+				if !isBin {
+					continue
+				}
+				k, isC := ConstInt(bo.Y)
+				if !isC || k != 0 || !DerivesFrom(bo.X, func(v ssa.Value) bool { return v == ssa.Value(h.Params[0]) }) {
+					continue
+				}
+				if (bo.Op == token.NEQ && f.Truth) || (bo.Op == token.EQL && !f.Truth) || (bo.Op == token.GTR && f.Truth) {
+					okCmp = true
+				}
+			}
+			if !okCmp {
+				return false
+			}
+		case isBoolConst(ret.Results[0], false):
+			if fromLoop {
+				return false // gives up on one element: that is "all elements", not "some element"
+			}
+		default:
+			return false
+		}
+	}
+	return nTrue > 0
+}
+
+// R2KeyPresent — the registration body is decrypted exactly when the agent sent a key.
+func R2KeyPresent(c *Ctx) {
+	const rule = "R2-key-present"
+	c.R.Rule(rule, "in ParseDemonRegisterRequest the DecryptBuffer call is conditional on `the 32-byte key differs from the all-zero key` and on nothing weaker or stronger: a bytes.Compare/bytes.Equal against a never-written make([]byte, n), or a helper that returns true exactly when some key byte is non-zero (a helper that wants every byte non-zero refuses one registration in eight)", 1)
+	fn := c.P.Func(PkgAgent, "ParseDemonRegisterRequest")
+	if fn == nil {
+		c.R.Anchor(rule, "agent.ParseDemonRegisterRequest")
+		return
+	}
+	n := 0
+	for _, pf := range HelperClosure(fn, 1) {
+		EachCall(pf, func(call ssa.CallInstruction) {
+			if CalleeName(call) != "(*Havoc/pkg/common/parser.Parser).DecryptBuffer" {
+				return
+			}
+			n++
+			construct := "DecryptBuffer iff key != zero key"
+			isKey := func(v ssa.Value) bool { return DerivesFrom(v, IsFieldLoad("", "AESKey")) }
+			isZero := func(v ssa.Value) bool {
+				untouched := func(x ssa.Value) bool {
+					for _, r := range *x.Referrers() {
+						switch u := r.(type) {
+						case *ssa.IndexAddr, *ssa.Store:
+							return false
+						case *ssa.Call:
+							if n := CalleeName(u); n != "bytes.Compare" && n != "bytes.Equal" {
+								return false // copy(), append … may write it
+							}
+						}
+					}
+					return true
+				}
+				switch mk := v.(type) {
+				case *ssa.MakeSlice:
+					return untouched(mk)
+				case *ssa.Slice:
+					// make([]byte, <constant>) is an array allocation sliced whole
+					al, ok := mk.X.(*ssa.Alloc)
+					if !ok || al.Comment != "makeslice" || !untouched(mk) {
+						return false
+					}
+					for _, r := range *al.Referrers() {
+						if r != ssa.Instruction(mk) {
+							return false
+						}
+					}
+					return true
+				}
+				return false
+			}
+			good, seenKeyTest := false, false
+			for _, f := range FactsAt(call.Block()) {
+				cond, truth := StripNot(f.Cond, f.Truth)
+				switch x := cond.(type) {
+				case *ssa.BinOp:
+					cmp, ok := x.X.(*ssa.Call)
+					k, isC := ConstInt(x.Y)
+					if !ok || !isC || k != 0 || CalleeName(cmp) != "bytes.Compare" || len(cmp.Call.Args) != 2 {
+						continue
+					}
+					a, b := cmp.Call.Args[0], cmp.Call.Args[1]
+					if (isKey(a) && isZero(b)) || (isKey(b) && isZero(a)) {
+						seenKeyTest = true
+						if (x.Op == token.NEQ) == truth {
+							good = true
+						}
+					}
+				case *ssa.Call:
+					name := CalleeName(x)
+					if name == "bytes.Equal" && len(x.Call.Args) == 2 {
+						a, b := x.Call.Args[0], x.Call.Args[1]
+						if (isKey(a) && isZero(b)) || (isKey(b) && isZero(a)) {
+							seenKeyTest = true
+							good = !truth
+						}
+						continue
+					}
+					if h := x.Call.StaticCallee(); h != nil && h.Blocks != nil && len(x.Call.Args) == 1 && isKey(x.Call.Args[0]) {
+						seenKeyTest = true
+						if truth && existsNonZero(h) {
+							good = true
+						}
+					}
+				}
+			}
+			switch {
+			case good:
+				c.R.Ok(rule, FuncShort(pf), construct, c.pos(call.Pos()), "decrypts exactly when the key is not the zero placeholder", true)
+			case seenKeyTest:
+				c.R.Bad(rule, FuncShort(pf), construct, c.pos(call.Pos()), "the test in front of DecryptBuffer is not `some key byte is non-zero`: registrations whose key passes the agent's test but not this one are read undecrypted and rejected (or the reverse)")
+			default:
+				c.R.Bad(rule, FuncShort(pf), construct, c.pos(call.Pos()), "DecryptBuffer is not conditional on a comparison of the session key with the all-zero key")
+			}
+		})
+	}
+	if n == 0 {
+		c.R.Anchor(rule, "the DecryptBuffer call of ParseDemonRegisterRequest")
+	}
+}
